@@ -16,6 +16,11 @@ fn main() {
         let secs: u64 = args.get(1).and_then(|s| s.parse().ok()).unwrap_or(0);
         exit(mc::nopanic::child_time(secs));
     }
+    if args[0] == "--c12-days" {
+        let a: u64 = args.get(1).and_then(|s| s.parse().ok()).unwrap_or(0);
+        let b: u64 = args.get(2).and_then(|s| s.parse().ok()).unwrap_or(0);
+        exit(mc::nopanic::child_days(a, b));
+    }
     if args[0] == "--c16-huge" {
         let e: i64 = args.get(1).and_then(|s| s.parse().ok()).unwrap_or(0);
         exit(mc::widths::child_huge(e, args.get(2).map(|s| s == "1").unwrap_or(false), args.get(3).and_then(|s| s.parse().ok()).unwrap_or(0)));
